@@ -14,13 +14,13 @@ import (
 
 // Obligation is one decided instance of a rule.
 type Obligation struct {
-	Rule   string `json:"rule"`
-	Key    string `json:"key"` // rule | func | construct descriptor (never a line number)
-	Func   string `json:"func,omitempty"`
-	Pos    string `json:"pos,omitempty"`
-	Status string `json:"status"` // discharged | violated | known | assumed
-	Fact   string `json:"fact,omitempty"`
-	What   string `json:"what,omitempty"`
+	Rule   string   `json:"rule"`
+	Key    string   `json:"key"` // rule | func | construct descriptor (never a line number)
+	Func   string   `json:"func,omitempty"`
+	Pos    string   `json:"pos,omitempty"`
+	Status string   `json:"status"` // discharged | violated | known | assumed
+	Fact   string   `json:"fact,omitempty"`
+	What   string   `json:"what,omitempty"`
 	Path   []string `json:"witness_path,omitempty"`
 }
 
@@ -45,11 +45,11 @@ func NewResult(prop, tier string) *Result {
 		FuncsSeen: map[string]bool{}, start: time.Now()}
 }
 
-func (r *Result) Explain(s string)    { r.Explanation = append(r.Explanation, s) }
-func (r *Result) Undecided(s string)  { r.NotDecided = append(r.NotDecided, s) }
-func (r *Result) Trust(s string)      { r.Trusted = append(r.Trusted, s) }
-func (r *Result) Assume(s string)     { r.Assumptions = append(r.Assumptions, s) }
-func (r *Result) Saw(fn string)       { r.FuncsSeen[fn] = true }
+func (r *Result) Explain(s string)      { r.Explanation = append(r.Explanation, s) }
+func (r *Result) Undecided(s string)    { r.NotDecided = append(r.NotDecided, s) }
+func (r *Result) Trust(s string)        { r.Trusted = append(r.Trusted, s) }
+func (r *Result) Assume(s string)       { r.Assumptions = append(r.Assumptions, s) }
+func (r *Result) Saw(fn string)         { r.FuncsSeen[fn] = true }
 func (r *Result) Table(k string, v any) { r.Tables[k] = v }
 
 func mkKey(rule, fn, construct string) string { return rule + " | " + fn + " | " + construct }
